@@ -662,8 +662,8 @@ PROPS = {
     ),
     "C04": dict(
         tables=['function_codes', 'exception_codes', 'limits'],
-        audit_modules=["RodbusModel.Audit.C04"],
-        required_theorems=["Rodbus.C04.success_iff", "Rodbus.C04.exception_iff", "Rodbus.C04.otherwise_error", "Rodbus.C04.trichotomy",
+        audit_modules=["RodbusModel.Audit.C04", "RodbusModel.Audit.C11Trace"],
+        required_theorems=["Rodbus.Client.ok_completion_is_wellformed_reply", "Rodbus.Client.exc_completion_is_exception_reply", "Rodbus.C04.success_iff", "Rodbus.C04.exception_iff", "Rodbus.C04.otherwise_error", "Rodbus.C04.trichotomy",
                            "Rodbus.C04.exception_code_roundtrip", "Rodbus.C04.returned_indices", "Rodbus.C04.end_to_end"],
         suites=[dict(gen="cl_resp", n=(600, 60000),
                      exhaustive="for one request of each of 6 kinds: function bytes 0..23, 0x80..0x97, 0xFF (all 256 thorough) x 11 bodies; all 256 "
@@ -770,8 +770,8 @@ PROPS = {
     ),
     "C11": dict(
         tables=[],
-        audit_modules=["RodbusModel.Audit.C11", "RodbusModel.Audit.C11Run"],
-        required_theorems=["Rodbus.Client.rtu_stok_reachable", "Rodbus.Client.stale_frame_never_accepted_rtu_reachable", "Rodbus.Client.one_outstanding", "Rodbus.Client.fifo_order", "Rodbus.Client.txid_formula", "Rodbus.Client.txid_next_wraps",
+        audit_modules=["RodbusModel.Audit.C11", "RodbusModel.Audit.C11Run", "RodbusModel.Audit.C11Trace"],
+        required_theorems=["Rodbus.Client.completion_caused_by_matching_frame", "Rodbus.Client.foreign_frame_never_result", "Rodbus.Client.idle_frame_dropped_any_order", "Rodbus.Client.rtu_stok_reachable", "Rodbus.Client.stale_frame_never_accepted_rtu_reachable", "Rodbus.Client.one_outstanding", "Rodbus.Client.fifo_order", "Rodbus.Client.txid_formula", "Rodbus.Client.txid_next_wraps",
                            "Rodbus.Client.consecutive_differ", "Rodbus.Client.mismatch_discarded", "Rodbus.Client.idle_dropped",
                            "Rodbus.Client.stale_frame_never_accepted", "Rodbus.Client.stale_frame_never_accepted_mbap"],
         suites=[dict(gen="cl_task", n=(1200, 120000), corpus=["cl"]), dict(gen="cl_txwrap", n=(0, 1))],
@@ -793,8 +793,8 @@ PROPS = {
     ),
     "C12": dict(
         tables=[],
-        audit_modules=["RodbusModel.Audit.C12"],
-        required_theorems=["Rodbus.Client.timeout_iff", "Rodbus.Client.timeout_only_at_deadline", "Rodbus.Client.before_deadline",
+        audit_modules=["RodbusModel.Audit.C12", "RodbusModel.Audit.C12Run"],
+        required_theorems=["Rodbus.Client.timeout_at_deadline_run_mbap", "Rodbus.Client.timeout_completion_at_deadline_run", "Rodbus.Client.max_timeouts_exact_run", "Rodbus.Client.no_limit_never_max_timeouts", "Rodbus.Client.timeout_iff", "Rodbus.Client.timeout_only_at_deadline", "Rodbus.Client.before_deadline",
                            "Rodbus.Client.timeout_keeps_connection", "Rodbus.Client.counter_exact", "Rodbus.Client.counter_restarts_per_session",
                            "Rodbus.Client.counter_no_limit", "Rodbus.Client.deadline_is_write_time_plus_timeout"],
         suites=[dict(gen="cl_task", n=(1200, 120000), corpus=["cl"]),
